@@ -11,7 +11,10 @@ theorem step_sAct {s s' : State} {t : Nat} {l : Label} {a : Act} {b : Bool} (h :
   | extend vs =>
     cases vs with
     | nil => cases hs; inv_open; inv_rest
-    | cons v vs => cases hs; inv_open_mut; mut_fields; inv_rest
+    | cons v vs =>
+      by_cases hv : v = 0
+      · simp only [hv, if_true] at hs; cases hs; inv_open; inv_rest
+      · simp only [hv, if_false] at hs; cases hs; inv_open_mut; mut_fields; inv_rest
 
 theorem step_sRel {s s' : State} {t : Nat} {l : Label} {r : Res} (h : Inv s) (hp : s.pc t = .sRel r)
     (hs : step s t = some (s', l)) : Inv s' := by
